@@ -90,7 +90,13 @@ def slice_replay(standins=STANDINS, slicepkg='internal/zzslice', extra_roots=())
             rc, log = C.sh(cmdt, cwd=moddir, timeout=600)
             if rc != 0:
                 return 2, 'replay build failed: ' + log
-            return C.sh([tb, '-test.run', 'TestZZReplay', '-test.v'], cwd=d, env={'SYMX_MODEL': mf}, timeout=300)
+            env = {'SYMX_MODEL': mf}
+            ex = job.extra or []
+            if '--preempt' in ex:
+                env['SYMX_PREEMPT'] = ex[ex.index('--preempt') + 1]
+            if '--spurious' in ex:
+                env['SYMX_SPURIOUS'] = ex[ex.index('--spurious') + 1]
+            return C.sh([tb, '-test.run', 'TestZZReplay', '-test.v'], cwd=d, env=env, timeout=300)
         except Exception as e:
             return 2, 'replay error %s' % e
     return run
@@ -335,3 +341,9 @@ def c01(ctx):
 def c04(ctx):
     C = _check()
     return [C.TVJob('shapes', gen_py(ctx, 'C04'), 'tvc04', chunks=12, unwind=8, deadline_s=120 if ctx.quick else 600, prefix='C04.')]
+
+
+@prop('C10', level='model_checking', title='channels under every schedule')
+def c10(ctx):
+    q = ctx.quick
+    return [rt_job(ctx, 'chan', [H(ctx, 'C10', 'chan_h.go')], unwind=30, deadline_s=900 if q else 3000, extra=['--spurious', '0' if q else '1', '--sched-steps', '300', '--preempt', '2' if q else '3'])]
